@@ -11,6 +11,7 @@ import Spec.Normalize
 import Spec.Encode
 import Model.Container
 import Spec.Conforms
+import Spec.Choose
 
 open Lean Wire
 
@@ -160,6 +161,25 @@ def handle (j : Json) : String :=
     | .ok (s, env) =>
       let b := Spec.conforms FUEL env (getB j "strict") (getB j "dtn") s (getV j "value")
       "{\"ok\":" ++ (if b then "true" else "false") ++ "}"
+  | "spec.enc.rule" =>   -- the specification's encoding with the *documented* branch-choice rule
+    match parseReq j with
+    | .error e => "{\"perr\":\"" ++ e.name ++ "\"}"
+    | .ok (s, env) =>
+      let o := wopts j
+      match Spec.encode (fun f bs v => Spec.choose f env o.strict o.disableTuple bs v) FUEL env s (getV j "value") with
+      | none => "{\"none\":true}"
+      | some b => "{\"bytes\":\"" ++ hex b ++ "\"}"
+  | "spec.choose" =>
+    match parseReq j with
+    | .error e => "{\"perr\":\"" ++ e.name ++ "\"}"
+    | .ok (s, env) =>
+      let o := wopts j
+      match s with
+      | .union bs =>
+        match Spec.choose FUEL env o.strict o.disableTuple bs (getV j "value") with
+        | none => "{\"none\":true}"
+        | some (i, _) => "{\"ok\":" ++ toString i ++ "}"
+      | _ => errOut .other
   | "skip" =>
     match parseReq j with
     | .error e => "{\"perr\":\"" ++ e.name ++ "\"}"
